@@ -7,7 +7,6 @@ package main
 
 import (
 	"strings"
-	"unicode/utf8"
 
 	"verifharness/vh"
 )
@@ -744,5 +743,3 @@ func productions(d doc, si []slotInfo, ch choices) []string {
 	}
 	return out
 }
-
-func runeLen(s string) int { return utf8.RuneCountInString(s) }
